@@ -91,6 +91,22 @@ def transform_constant(source: DenseIntOrFPElementsAttr, dest_layout: Attribute)
     return new_value
 
 
+def _can_relayout_global(global_op: memref.GlobalOp, get_global: memref.GetGlobalOp) -> bool:
+    """
+    A global can be given a new layout once (afterwards its initial value is no longer
+    row-major), and only if no other memref.get_global refers to it.
+    """
+    if not isinstance(global_op.type, builtin.MemRefType) or not isinstance(global_op.type.layout, builtin.NoneAttr):
+        return False
+    symbol_table_op = global_op.parent_op()
+    assert symbol_table_op is not None
+    return all(
+        other is get_global or other.name_ != get_global.name_
+        for other in symbol_table_op.walk()
+        if isinstance(other, memref.GetGlobalOp)
+    )
+
+
 def get_source_operand(op: MemorySpaceCastOp | LayoutCast) -> Operand:
     """
     Find the source of a chain of layout / memory space casts.
@@ -164,6 +180,8 @@ class ApplyLayoutCastSubviewGlobal(RewritePattern):
             return
         global_op = SymbolTable.lookup_symbol(op, const_source.name_)
         if not isinstance(global_op, memref.GlobalOp):
+            return
+        if not _can_relayout_global(global_op, const_source):
             return
 
         # determine a new layout for the global such that
@@ -371,6 +389,8 @@ class ApplyLayoutCastMemrefGlobal(RewritePattern):
             return
         global_op = SymbolTable.lookup_symbol(op, const_source.name_)
         if not isinstance(global_op, memref.GlobalOp):
+            return
+        if not _can_relayout_global(global_op, const_source):
             return
 
         # apply transformation
